@@ -195,7 +195,7 @@ func (wt writeTxn) Create(v interface{}) error {
 		// Validate that the resource doesn't exist
 		_, err := txn.Get(wt.rname)
 		if err == nil {
-			return fmt.Errorf("cannot create because value for %s already exists", wt.id)
+			return store.ErrDuplicate
 		}
 		if err != badger.ErrKeyNotFound {
 			return err
